@@ -679,7 +679,11 @@ func c03c(c *Ctx, r *Report) {
 					ir, n2, e2 := isRule, nt, eps
 					val := func(t *Term) (constant.Value, bool) {
 						switch {
-						case t.Op == "cmp" && strings.Contains(t.String(), "&"): // (in & mask) != 0
+						case t.Op == "cmp" && strings.Contains(t.String(), "&"): // (in & CheckMask) != 0
+							// only the exact rule-bit test is decided by the class: mask = CheckMask, compared with 0
+							if !isRuleBitTest(c, t) {
+								return nil, false
+							}
 							v := ir
 							if t.Name == "==" {
 								v = !ir
@@ -711,6 +715,7 @@ func c03c(c *Ctx, r *Report) {
 		}
 		r.Check(bad == "" && n >= 8, clause, "R4 DECISION-TABLE", f.Name, c.pos(f.Decl.Pos()), "all 8 classes (rule bit × nonterminal × nullable) give the defined result", bad)
 	}
+	c03WalkAndFetch(c, r, clause)
 	c03EndMarker(c, r, clause)
 	// BuildTrans ordering premises
 	if f := c.need(r, clause, "LALR", "LALR1", "BuildTrans"); f != nil {
@@ -2033,6 +2038,160 @@ func findFoldLoop(info *types.Info, fd *ast.FuncDecl) (*ast.ForStmt, *ast.CallEx
 	}
 	visit(fd.Body)
 	return fold, rcall
+}
+
+// c03WalkAndFetch — the two helpers the path conditions and the includes targets rest on.
+// walk(q, ω): follows goto(q, X) for every symbol X of ω in order; a missing transition yields a value that is no
+// state (negative); otherwise the state reached. fetchTransIndex(p, A): the index of the transition whose source
+// is p and whose symbol is A, an error when there is none.
+func c03WalkAndFetch(c *Ctx, r *Report, clause string) {
+	if f := c.need(r, clause, "LALR", "LALR1", "walk"); f != nil {
+		cf := newCoverFn(f)
+		info := cf.info
+		ps := paramObjs(info, f.Decl)
+		why := ""
+		if len(ps) != 2 {
+			why = "expected (state, symbols)"
+		} else {
+			q, syms := ps[0], ps[1]
+			loops := cf.rangesOver(nil, func(e ast.Expr) bool { return identObj(info, e) == syms })
+			switch {
+			case len(loops) != 1 || !cf.unconditional(loops[0], f.Decl.Body):
+				why = "no single unconditional loop over the symbols"
+			default:
+				rs := loops[0]
+				sy := identObj(info, rs.Value)
+				pe := newPathEnum(info)
+				pe.rename[q] = "Q"
+				if sy != nil {
+					pe.rename[sy] = "SY"
+				}
+				paths, err := pe.Enumerate(rs.Body.List)
+				if err != nil {
+					why = err.Error()
+					break
+				}
+				for _, p := range paths {
+					found, decided := false, false
+					for _, cd := range p.Conds {
+						if strings.Contains(cd.Atom.String(), "FindItemClosure(") && strings.Contains(cd.Atom.String(), "nil") {
+							decided = true
+							isEq := cd.Atom.Name == "=="
+							found = (isEq && !cd.Pol) || (!isEq && cd.Pol)
+						}
+					}
+					if !decided {
+						why = "an iteration does not test whether the transition exists"
+						continue
+					}
+					if !found {
+						if p.Kind != "return" || len(p.Vals) != 1 || p.Vals[0].Op != "const" {
+							why = "a missing transition does not end the walk with a constant"
+						} else if v, ok := constant.Int64Val(constant.ToInt(p.Vals[0].Val)); !ok || v >= 0 {
+							why = fmt.Sprintf("a missing transition makes walk return %s, which is a possible state number: the path condition then holds for transitions of that state", p.Vals[0].String())
+						}
+						continue
+					}
+					if p.Kind != "fall" && p.Kind != "continue" {
+						why = "the walk stops although the transition exists"
+					}
+					t := p.Env[q]
+					if t == nil || !strings.HasSuffix(t.String(), ".ItemCl") || !strings.Contains(t.String(), "LR0Closure[Q]") || !strings.Contains(t.String(), "FindItemClosure(") || !strings.Contains(t.String(), "SY") {
+						why = "the state is not advanced to goto(state, symbol).ItemCl"
+						if t != nil {
+							why += " (it becomes " + t.String() + ")"
+						}
+					}
+				}
+				// final return q
+				last, ok := f.Decl.Body.List[len(f.Decl.Body.List)-1].(*ast.ReturnStmt)
+				if why == "" && (!ok || len(last.Results) != 1 || identObj(info, last.Results[0]) != q) {
+					why = "the function does not end by returning the state reached"
+				}
+			}
+		}
+		r.Check(why == "", clause, "R4 DECISION-TABLE", f.Name+"/follows-the-transition-function", c.pos(f.Decl.Pos()),
+			"walk advances state ← goto(state, X).ItemCl for every symbol in order, returns a negative constant when a transition is missing and the state reached otherwise", why)
+	}
+	if f := c.need(r, clause, "LALR", "LALR1", "fetchTransIndex"); f != nil {
+		cf := newCoverFn(f)
+		info := cf.info
+		ps := paramObjs(info, f.Decl)
+		why := ""
+		loops := cf.rangesOver(nil, func(e ast.Expr) bool { return fieldNamed(info, e, "trans") })
+		if len(ps) != 2 || len(loops) != 1 || !cf.unconditional(loops[0], f.Decl.Body) {
+			why = "expected (state, symbol) and one unconditional loop over the transitions"
+		} else {
+			rs := loops[0]
+			idx, tr := identObj(info, rs.Key), identObj(info, rs.Value)
+			n := 0
+			ast.Inspect(rs.Body, func(nd ast.Node) bool {
+				rt, ok := nd.(*ast.ReturnStmt)
+				if !ok || len(rt.Results) != 2 {
+					return true
+				}
+				n++
+				if identObj(info, rt.Results[0]) != idx || exprString(rt.Results[1]) != "nil" {
+					why = "a hit does not return (the transition's index, nil)"
+				}
+				atoms := guardAtoms(c, f, rt)
+				wantQ, wantS := false, false
+				for _, a := range atoms {
+					switch {
+					case !strings.HasPrefix(a, "!") && strings.Contains(a, " == ") && strings.Contains(a, ".q") && strings.Contains(a, "$"+ps[0].Name()):
+						wantQ = true
+					case !strings.HasPrefix(a, "!") && strings.Contains(a, " == ") && strings.Contains(a, ".sym_or_rule") && strings.Contains(a, "$"+ps[1].Name()):
+						wantS = true
+					default:
+						why = "a hit is reported under the extra condition " + a
+					}
+				}
+				if !wantQ || !wantS {
+					why = fmt.Sprintf("a hit is reported under %v, not exactly `source == state ∧ symbol == wanted symbol`", atoms)
+				}
+				_ = tr
+				return true
+			})
+			if why == "" && n != 1 {
+				why = "the loop has no single hit"
+			}
+			last, ok := f.Decl.Body.List[len(f.Decl.Body.List)-1].(*ast.ReturnStmt)
+			if why == "" && (!ok || len(last.Results) != 2 || exprString(last.Results[1]) == "nil") {
+				why = "a miss is not reported with a non-nil error"
+			}
+		}
+		r.Check(why == "", clause, "R4 DECISION-TABLE", f.Name+"/finds-the-transition", c.pos(f.Decl.Pos()),
+			"fetchTransIndex returns the index of the transition with the given source state and symbol, and an error when there is none", why)
+	}
+}
+
+// isRuleBitTest: t is `(x & CheckMask) ==|!= 0` (operands in either order).
+func isRuleBitTest(c *Ctx, t *Term) bool {
+	if t.Op != "cmp" || (t.Name != "==" && t.Name != "!=") || len(t.Args) != 2 {
+		return false
+	}
+	cm, ok := pkgConst(c.Pkg("LALR"), "CheckMask")
+	if !ok {
+		return false
+	}
+	cmv, _ := constant.Uint64Val(constant.ToInt(cm))
+	isConst := func(x *Term, v uint64) bool {
+		if x == nil || x.Op != "const" || x.Val == nil {
+			return false
+		}
+		u, exact := constant.Uint64Val(constant.ToInt(x.Val))
+		return exact && u == v
+	}
+	for _, pr := range [][2]*Term{{t.Args[0], t.Args[1]}, {t.Args[1], t.Args[0]}} {
+		and, zero := pr[0], pr[1]
+		if !isConst(zero, 0) || and == nil || and.Op != "arith" || and.Name != "&" || len(and.Args) != 2 {
+			continue
+		}
+		if isConst(and.Args[0], cmv) || isConst(and.Args[1], cmv) {
+			return true
+		}
+	}
+	return false
 }
 
 // c03EndMarker: the end marker is seeded into DR of transition 0, rule 0 reduces (= accepts) on the end marker
